@@ -9,7 +9,7 @@ EXPLANATION = (
     "against Python list indexing. "
 )
 OUTSIDE = ("identifiers longer than 3-4 characters (4-5 in the thorough tier); characters below U+0020 or above U+D7FF; that a well-formed [@attr=string] selects exactly the "
-           "equal-valued nodes is libxml2's XPath semantics (trusted); _get_between_base id predicates")
+           "equal-valued nodes is libxml2's XPath semantics (trusted); _get_between_base id predicates")  # (get_reference_mark/get_references/get_text_change, referenced_text, Document._get_table and make_file_entry are covered below)
 ASSUMPTIONS = ["identifier characters in U+0020..U+D7FF (XML-legal without controls), lengths as stated per obligation"]
 TRUSTED = _T + ["libxml2's evaluation of a well-formed XPath predicate"]
 _ENC = ["src/odfdo/utils/xpath_query.py:make_xpath_query,xpath_literal", "src/odfdo/element.py:_filtered_element,_filtered_elements and the get_* lookups",
@@ -56,4 +56,20 @@ OBLIGATIONS += [
         bounds="names of <= 4 characters accepted by the NamedRange.name setter", encodes=["src/odfdo/element.py:get_named_range"], stubs=_STUB),
     Obl(name="manifest@d1", module="h_xpath", func="manifest_query", timeout=600, tier="thorough", env={"VERIF_DEPTH": "1"}, replay="r_h_xpath:manifest", weight=110,
         bounds="paths of <= 4 characters, any character", encodes=_ENC[3:], stubs=_STUB),
+]
+
+_NAMES2 = ["get_reference_mark(name=)", "get_text_change(idx=)", "get_references(name=)"]
+for k in range(3):
+    OBLIGATIONS.append(Obl(name=f"lookup_twice_{k}", module="h_xpath", func="lookup_twice", timeout=500, env={"VERIF_K2": str(k)}, replay="r_h_xpath:lookup_twice", extra={"k2": k}, weight=100,
+                           bounds=f"{_NAMES2[k]}: identifier of 1..3 characters, each any of U+0020..U+D7FF; the identifier filters every branch of the union query",
+                           encodes=["src/odfdo/element.py:get_reference_mark,get_references,get_text_change", "src/odfdo/utils/xpath_query.py:xpath_literal"], stubs=_STUB))
+OBLIGATIONS += [
+    Obl(name="referenced_text_query", module="h_xpath", func="referenced_text_query", timeout=600, replay="r_h_xpath:referenced_text", weight=170,
+        bounds="ReferenceMarkStart/End.referenced_text(): mark names of 1..3 characters, any of U+0020..U+D7FF", encodes=["src/odfdo/reference.py:ReferenceMarkStart.referenced_text,ReferenceMarkEnd.referenced_text"],
+        stubs=["h_xpath.CapRef: an element with a given name whose xpath() records the query"]),
+    Obl(name="document_table_query", module="h_xpath", func="document_table_query", timeout=200, replay="r_h_xpath:document_table", weight=17,
+        bounds="Document._get_table(str) (behind get_table_style, set_table_displayed, get_cell_style_properties...): names of 1..3 characters, any of U+0020..U+D7FF (all-digit names included)",
+        encodes=["src/odfdo/document.py:Document._get_table", "src/odfdo/body.py:Body.get_table"], stubs=["h_xpath.CapDoc: object whose body is the recording Body"]),
+    Obl(name="file_entry_attrs", module="h_xpath", func="file_entry_attrs", shadow=True, timeout=300, replay="r_h_xpath:file_entry_attrs", weight=30,
+        bounds="Manifest.make_file_entry(path, media type): path of 1..2 and media type of <= 1 characters, any of U+0020..U+D7FF", encodes=["src/odfdo/manifest.py:Manifest.make_file_entry"], stubs=["/verif/shadow/lxml (symdom)"]),
 ]
